@@ -374,3 +374,17 @@ pub struct UploadSummary {
     pub record_count: usize,
     pub tokens_spent: Amount,
 }
+
+/// Verification hook (compiled only with `--cfg maidsafe_safe_network_verif`): lets the external
+/// /verif harness build a `Client` around a `Network` whose command channels it drives itself,
+/// so that record fetches can be answered from memory / from an adversarial script.
+#[cfg(maidsafe_safe_network_verif)]
+impl Client {
+    pub fn verif_new(network: Network, evm_network: EvmNetwork) -> Self {
+        Self {
+            network,
+            client_event_sender: Arc::new(None),
+            evm_network,
+        }
+    }
+}
